@@ -9,6 +9,7 @@ SOURCES = [("a", "VfWidget"), ("b", "VfWidget"), ("c", "VfSub"), ("spin", "QSpin
            ("edit", "QLineEdit"), ("peer2", "VfSub")]
 OWNER_FREE = [("ival3", ge.INT), ("bval2", ge.BOOL), ("sval2", ge.STR), ("uval2", ge.UINT), ("dval2", ge.DOUBLE)]
 VF_ALL = [(p, t) for t, ps in ge.VF_PROPS.items() for p in ps]
+VF_EXTRA = [("vval", "variant")]   # QVariant-typed property: a state holds (kind, value), kind one of ge.VARIANT_KINDS
 QT_STATE = {"spin": [("value", ge.INT)], "chk": [("checked", ge.BOOL)], "edit": [("text", ge.STR)]}
 
 INT_POOL = [0, 1, -1, 2, 3, 5, 7, 10, 31, 32, 33, 100, 255, -128, 1000, 46340, 46341, 65535, 65536, ge.INT_MAX, ge.INT_MIN,
@@ -26,8 +27,9 @@ class Binding:
 
 class ExprDoc:
     def __init__(self, rng, n_targets=3, types=None, hostile_strings=False, max_depth=4, kinds=None, profile="dynamic",
-                 void_path_hazard=False, cascade=False, gadget_members=False):
+                 void_path_hazard=False, cascade=False, gadget_members=False, doc_casts=False):
         self.rng = rng
+        self.doc_casts = doc_casts
         self.objects = [ge.ObjSpec(i, c) for i, c in SOURCES]
         self.targets = ["t%d" % k for k in range(n_targets)]
         self.features = set()
@@ -39,6 +41,7 @@ class ExprDoc:
                          value_only=[x for x in bound if x[2] not in (ge.PTR, ge.SLIST)] if cascade else ())
             g = ge.Gen(rng, env, profile=profile, max_depth=max_depth, hostile_strings=hostile_strings, features=self.features)
             g.void_path_hazard = void_path_hazard
+            g.doc_casts = doc_casts
             g.no_state_methods = cascade
             if cascade:
                 g.chain_bias, g.chain_extra = 0.35, 1
@@ -132,7 +135,11 @@ class ExprDoc:
         return states
 
     def vf_state(self, mild, lints, lstrs, ids):
-        return {p: self.value(t, mild, lints, lstrs, ids) for p, t in VF_ALL}
+        st = {p: self.value(t, mild, lints, lstrs, ids) for p, t in VF_ALL}
+        if getattr(self, "doc_casts", False):
+            kind = self.rng.choice(ge.VARIANT_KINDS)
+            st["vval"] = (kind, self.value(kind, mild, lints, lstrs, ids))
+        return st
 
     def value(self, t, mild, lints, lstrs, ids):
         rng = self.rng
@@ -201,7 +208,7 @@ def state_setup_code(st, indent="    "):
 
 
 def type_of_prop(oid, p):
-    for pp, t in VF_ALL:
+    for pp, t in VF_ALL + VF_EXTRA:
         if pp == p and oid not in QT_STATE:
             return t
     for pp, t in QT_STATE.get(oid, []):
@@ -253,6 +260,8 @@ def write_plan_files(d, doc, states, plan):
 
 
 def encode_state_value(t, v):
+    if t == "variant":
+        return "v " + encode_state_value(v[0], v[1])
     if t == ge.BOOL:
         return "b %d" % (1 if v else 0)
     if t == ge.INT:
@@ -397,6 +406,12 @@ def vfstate_header():
             L.append("        if (prop == \"%s\") { QStringList l; std::stringstream ss(val); std::string tok; while (std::getline(ss, tok, ';')) l.v.push_back(qvm_units(tok)); w->m_%s = l; return true; }" % (p, p))
             continue
         L.append("        if (prop == \"%s\") { w->m_%s = %s; return true; }" % (p, p, conv))
+    # vval: `<kind letter> <value>` with the encodings of the plain types
+    L.append("        if (prop == \"vval\") { std::string k = val.substr(0, 1), r = val.size() > 2 ? val.substr(2) : std::string();"
+             " if (k == \"b\") w->m_vval = QVariant(r == \"1\"); else if (k == \"i\") w->m_vval = QVariant(std::stoi(r));"
+             " else if (k == \"u\") w->m_vval = QVariant((uint)std::stoul(r));"
+             " else if (k == \"d\") { uint64_t b = std::stoull(r, nullptr, 16); double d; memcpy(&d, &b, 8); w->m_vval = QVariant(d); }"
+             " else if (k == \"s\") w->m_vval = QVariant(qvm_units(r)); else return false; return true; }")
     D = []
     for i, (p, t) in enumerate(VF_ALL):
         D.append("            body += std::string(%s\"\\\"%s\\\":\") + qvm::show(w->m_%s);" % ("" if i == 0 else "\",\" ", p, p))
